@@ -4,7 +4,10 @@ import json, os, subprocess, sys, time, traceback, tempfile, re, multiprocessing
 import z3
 
 VERIF = os.path.dirname(os.path.dirname(os.path.abspath(__file__)))
-OUT = os.path.join(VERIF, 'out')
+# VERIF_SCRATCH (seed evaluation only): replay files and the evidence file go there instead of /verif, so that several
+# seeded trees (VERIF_REPO) can be evaluated side by side without touching the committed evidence.
+SCRATCH = os.environ.get('VERIF_SCRATCH') or VERIF
+OUT = os.path.join(SCRATCH, 'out')
 KNOWN = os.path.join(VERIF, 'known_findings.json')
 
 
@@ -416,8 +419,8 @@ class Check:
         }
         ev = {'property_id': s.pid, 'tier': s.tier, 'seed': s.seed, 'level': s.level, 'coverage': cov,
               'assumptions': s.assumptions, 'wall_s': round(wall, 2), 'violations': len(s.violations)}
-        os.makedirs(os.path.join(VERIF, 'evidence'), exist_ok=True)
-        path = os.path.join(VERIF, 'evidence', s.pid + '.json')
+        os.makedirs(os.path.join(SCRATCH, 'evidence'), exist_ok=True)
+        path = os.path.join(SCRATCH, 'evidence', s.pid + '.json')
         with open(path + '.tmp', 'w') as f:
             json.dump(ev, f, indent=1, default=str)
         os.replace(path + '.tmp', path)
